@@ -1035,3 +1035,70 @@ _run_c12h = run
 def run(ctx):  # noqa: F811
     _run_c12h(ctx)
     r12_13(ctx, ctx.model)
+
+
+# --------------------------------------------------------------------------------------------------------------- R12.14
+def r12_14(ctx, m):
+    R = "R12.14"
+    ctx.rule(R, "tree_math.util._check (the test `eigenvalue > cut` behind solve/sqrtm/log-determinant of NDVariableCovarianceGaussian): "
+                "the cut-off is an ABSOLUTE threshold, so it may only guard the division against exact singularity - a numeric constant "
+                "not above float64 machine epsilon - or be scaled by the spectrum itself; a bare machine epsilon of the dtype "
+                "(`finfo(...).eps`, a RELATIVE quantity, 1.2e-7 in single precision) or a larger constant declares valid small-variance "
+                "covariances singular and the metric 0 instead of the Fisher information", floor=1)
+    mod = m.module("nifty.re.tree_math.util")
+    fi = next((f for f in mod.all_functions if f.name == "_check"), None)
+    if fi is None:
+        ctx.und(R, "nifty.re.tree_math.util::_check", "function missing", mod.relpath)
+        return
+    ctx.saw_func(fi)
+    a = fi.node.args
+    params = [x.arg for x in a.args]
+    defaults = dict(zip(params[len(params) - len(a.defaults):], a.defaults))
+    cmps = [c for c in ast.walk(fi.node) if isinstance(c, ast.Compare) and len(c.ops) == 1 and isinstance(c.ops[0], (ast.Gt, ast.GtE, ast.Lt, ast.LtE))]
+    key = f"{fi.key}::absolute eigenvalue cut-off"
+    if len(cmps) != 1 or not params:
+        ctx.und(R, key, f"{len(cmps)} comparisons", fi)
+        return
+    c = cmps[0]
+    v = params[0]
+    thr = c.comparators[0] if src(c.left) == v else c.left
+    # every expression that may flow into the threshold: defaults and local (re)bindings of the names it mentions
+    exprs, seen, todo = [], set(), [thr]
+    while todo:
+        e = todo.pop()
+        exprs.append(e)
+        for n in ast.walk(e):
+            if isinstance(n, ast.Name) and n.id not in seen and n.id != v:
+                seen.add(n.id)
+                if n.id in defaults:
+                    todo.append(defaults[n.id])
+                for st in walk_no_nested(fi.node):
+                    if isinstance(st, ast.Assign) and any(src(t) == n.id for t in st.targets):
+                        todo.append(st.value)
+    bad, und = None, None
+    for e in exprs:
+        for n in ast.walk(e):
+            if isinstance(n, ast.Attribute) and n.attr in ("eps", "resolution", "epsneg"):
+                # scaled by a spectrum quantity (max/abs/norm of v)?
+                scaled = any(isinstance(z, ast.Call) and v in {q.id for q in ast.walk(z) if isinstance(q, ast.Name)}
+                             and call_name(z) in ("max", "amax", "abs", "norm", "trace") for e2 in exprs for z in ast.walk(e2))
+                if not scaled:
+                    bad = f"`{src(e)}`: a machine epsilon used as an absolute threshold on eigenvalues (not scaled by the spectrum)"
+            if isinstance(n, ast.Constant) and isinstance(n.value, (int, float)) and not isinstance(n.value, bool):
+                if isinstance(e, ast.Constant) and abs(n.value) > 2.3e-16:
+                    bad = f"constant cut-off {n.value!r} is above float64 machine epsilon: eigenvalues below it are valid variances"
+    consts = [e for e in exprs if isinstance(e, ast.Constant) and isinstance(e.value, (int, float))]
+    if bad is None and not consts and not any(isinstance(n, ast.Attribute) for e in exprs for n in ast.walk(e)):
+        und = f"threshold `{src(thr)}` not traced to a constant"
+    if und:
+        ctx.und(R, key, und, fi, c)
+    else:
+        ctx.check(R, key, bad is None, bad or f"`{src(c)}` with {', '.join(f'{k}={src(d)}' for k, d in defaults.items())}", fi, c)
+
+
+_run_c12i = run
+
+
+def run(ctx):  # noqa: F811
+    _run_c12i(ctx)
+    r12_14(ctx, ctx.model)
